@@ -288,3 +288,22 @@ REGISTRY["C20"] = {
         {"name": "TestC20EngineIds", "checks": {"quick": 300, "thorough": 3000}, "shards": {"quick": 2, "thorough": 8}},
     ],
 }
+
+REGISTRY["C16"] = {
+    "pkg": "props/c16",
+    "level": "exploration",
+    "level_text": ("rapid-drawn Go values (all signed/unsigned integer widths within int64, float32/64 incl. boundary values, -0, subnormals, 1e+-300; strings with "
+                   "unicode/control characters/JSON-looking text; bool; nil; nested map[string]any, []any, typed slices, arrays, byte slices, tagged structs with "
+                   "unexported fields, single-level pointers incl. nil; depth <= 4) through four doors: schema.NewValue / typed Value.ValueFrom with every declared "
+                   "item type incl. unknown ones and nil, WithVariables, DoWithResults (declared field types), DoWithObjects, and olive property/header references "
+                   "to present, absent and malformed paths; two instances alive at once. Oracle: an independently written canonicaliser (encoding/json semantics "
+                   "inside containers) - read-back value and item type must equal canon(v); nothing panics (a panic in an engine goroutine kills the worker and "
+                   "is recovered from the journal); variables never cross instances."),
+    "level_note": "Trusted: the reference canonicaliser in props/c16 (encoding/json), reflect. Typed declarations are only required not to panic (value survival is stated for variables, results and data objects, which use the inferred path). Pointers are single-level; integers inside containers are limited to +-2^53 (JSON numbers).",
+    "technique": "rapid property test: round trip against an independent canonicaliser; crash detection through worker journal",
+    "rule": ("Distinct = (value spec, declared type | door, reference). Non-trivial = the value is not a plain string/int, or a declared type differs from the dynamic type, or a reference path is absent/malformed."),
+    "tests": [
+        {"name": "TestC16Value", "checks": {"quick": 6000, "thorough": 400000}, "shards": {"quick": 8, "thorough": 16}},
+        {"name": "TestC16Engine", "checks": {"quick": 150, "thorough": 6000}, "shards": {"quick": 8, "thorough": 16}},
+    ],
+}
